@@ -10,7 +10,7 @@ COMMON_TB = [
 PROPS = {
     "C01": {
         "level_text": "Lean 4 theorem over a labelled transition system of concurrent writers of the truth log (one transition = one effect: take the seq mutex, choose the seq from the in-memory map or — after a restart — from the log and append, bump the map, release; thread creation by branch/handoff/ensure_default with its hard-coded seq 0 and 1 frames; authority restarts): for EVERY number of writers, every program with fresh thread ids and EVERY interleaving, every stream's frames carry seq 0,1,2,... in file order (a validated replay succeeds); the mutex is exclusive; appends to a thread still being created write nothing. The full statement was false before the repair (witness kept: a client addressing a new thread between its creation frame and its lineage frame duplicated seq 1) and is now proved without any assumption on addressing. Obligations re-proved by decide on the effect orders REGENERATED from the current source on every run: all eleven append functions are critical sections of the modelled shape; branch, handoff and ensure_default create inside the seq lock; the log file write is body+newline+flush under its own mutex. Tied further by (a) a real-concurrency stress (2-6 OS threads, all append kinds, branch, handoff, compaction jobs, scheduler, linked session runs, across a restart) whose log must replay validated, and (b) controlled-schedule correspondence: writers single-stepped between the effects of the real functions, final (stream, seq) sequence compared with the LTS run on the same schedule; the witness schedule is replayed on the real store on every run.",
-        "level_note": "Lean kernel; std::sync::Mutex is a mutex; O_APPEND writes of one frame are not interleaved (EventLog's own mutex, generated obligation); session and task streams are covered by a second LTS (any number of concurrent emitters on one stream; Rip.Model.Emitters) whose tie is the regenerated emitter order (C06) and the two-emitter controlled schedules of the C06 check, plus the stress oracle here; preemption inside one effect is outside the model.",
+        "level_note": "Lean kernel; std::sync::Mutex is a mutex; O_APPEND writes of one frame are not interleaved (EventLog's own mutex, generated obligation); session and task streams are covered by a second LTS (any number of concurrent emitters on one stream; Rip.Model.Emitters) whose tie is the regenerated emitter order (C06) and the two-emitter controlled schedules of the C06 check, plus the stress oracle here; frames numbered from a counter passed by reference (session, tool and task helpers) are covered by a numbering theorem over token lists (Rip.Model.SeqAcct) whose hypothesis is re-decided on the token lists ripx extracts from the current source (gen_seq_accounting), and by provider runs with executed and refused tool calls followed by the per-stream check; preemption inside one effect is outside the model.",
         "technique": "Lean 4 proof (inductive invariant over all interleavings incl. restarts) + decide over regenerated effect orders + stress and controlled-schedule correspondence",
         "design_ref": "§5 C01",
         "trusted_base": COMMON_TB + [
@@ -21,7 +21,7 @@ PROPS = {
             "thread ids are fresh UUIDs (a created id did not exist before and is created once)",
             "log-append I/O errors do not occur; crashes are the subject of C05",
         ],
-        "gen": ["EffectOrder"],
+        "gen": ["EffectOrder", "SeqAccounting"],
     },
     "C02": {
         "level_text": "Lean 4 theorems: (byte level) every append leaves the previous file content as an exact prefix and adds only whole newline-terminated frames — the lines of the new log are the old lines followed by exactly the appended frames; (static, regenerated on every run by the translator ripx) the truth file is only ever opened create+append and impl EventLog contains no truncating/seeking/renaming call; EventLog::append is lock / body / newline / flush / unlock; in the call graph of impl ContinuityStore none of the read-only capabilities (replay, cut points, compaction status, cursor status, selection status, list, get, subscribe, the compile-input loaders) can reach a function that appends to the event log, and no cache-layer file mentions the event log — decided by a reachability computation over the regenerated graph, for every argument value at once; (planner model of C09) auto and auto-schedule with nothing to do or as a dry run append nothing for every thread and parameter. Tied by an implementation oracle on bytes: operation histories over the store API and the HTTP router (valid, invalid, unknown-thread arguments; cache deletion; reopen), after every call the previous bytes (length + SHA-256) are a prefix, the suffix splits into JSON frames, read-only and no-op calls add nothing.",
